@@ -331,7 +331,7 @@ class Engine:
                     o_t = self.exec_block(node.body, st_t)
                     o_f = self.exec_block(node.orelse, st_f)
                     if len(o_t) == 1 and len(o_f) == 1 and o_t[0][1] is None and o_f[0][1] is None:
-                        merged = merge_states(tz, base, o_t[0][0], o_f[0][0])
+                        merged = merge_states(tz, base, o_t[0][0], o_f[0][0], strict=True)
                         self.stats["merges"] += 1
                         outs.append((merged, None))
                         continue
@@ -340,6 +340,22 @@ class Engine:
                 except EngineUnsupported:
                     pass  # may stem from an infeasible branch: redo with feasibility checks
             brs = self.branch(s.fork(), t)
+            if len(brs) == 2 and _simple_block(node.body) and _simple_block(node.orelse):
+                # both branches feasible and a strict merge failed: merge with poisoned temporaries rather
+                # than doubling the number of paths
+                (st_t, _), (st_f, _) = brs
+                o_t = self.exec_block(node.body, st_t)
+                o_f = self.exec_block(node.orelse, st_f)
+                if len(o_t) == 1 and len(o_f) == 1 and o_t[0][1] is None and o_f[0][1] is None:
+                    try:
+                        merged = merge_states(tz, base, o_t[0][0], o_f[0][0])
+                        self.stats["merges"] += 1
+                        outs.append((merged, None))
+                        continue
+                    except NoMerge as e:
+                        self.stats.setdefault("nomerge", []).append(str(e)[:80])
+                outs += o_t + o_f
+                continue
             for s2, b in brs:
                 outs += self.exec_block(node.body if b else node.orelse, s2)
         return outs
